@@ -789,7 +789,7 @@ pub fn string_pool() -> Vec<&'static str> {
 }
 
 pub fn root_pool() -> Vec<Option<&'static str>> {
-    vec![None, Some(""), Some("r"), Some("r/"), Some("r//"), Some("/abs"), Some("http://x/")]
+    vec![None, Some(""), Some("r"), Some("r/"), Some("r//"), Some("/abs"), Some("http://x/"), Some("/")]
 }
 
 // ---------------------------------------------------------------------------------
